@@ -4,7 +4,9 @@ package filedesc
 
 import (
 	"google.golang.org/protobuf/encoding/protowire"
+	"google.golang.org/protobuf/internal/strs"
 	"google.golang.org/protobuf/internal/zzverif/nd"
+	"google.golang.org/protobuf/reflect/protoreflect"
 )
 
 func c38parent() EditionFeatures {
@@ -110,4 +112,41 @@ func H_C38_defaults() {
 		}
 	}
 	nd.Assert(got.APILevel == want, "defaults of the greatest edition not above the requested one")
+}
+
+// H_C38_enum_features: an enum declared in an editions file resolves enum_type (openness) to its
+// own explicit `option features.enum_type` when present, else to the parent's value, when the
+// descriptor is initialised from a raw descriptor (the path generated code uses).
+//
+//verif:props=C38 bounds=EnumDescriptorProto{name,optional-options{features{enum_type-0..3}},optional-value};parent-features-arbitrary
+func H_C38_enum_features() {
+	pf := &File{}
+	pf.L1.Syntax = protoreflect.Editions
+	pf.L1.Package = "p"
+	pf.L1.EditionFeatures = c38parent()
+	var b []byte
+	b = protowire.AppendTag(b, 1, protowire.BytesType) // name
+	b = protowire.AppendBytes(b, []byte("E"))
+	want := pf.L1.EditionFeatures.IsOpenEnum
+	if nd.Bool() {
+		v := nd.Byte()
+		nd.Assume(v <= 3)
+		var fs []byte
+		fs = protowire.AppendTag(fs, 2, protowire.VarintType) // FeatureSet.enum_type
+		fs = protowire.AppendVarint(fs, uint64(v))
+		var opts []byte
+		opts = protowire.AppendTag(opts, 7, protowire.BytesType) // EnumOptions.features
+		opts = protowire.AppendBytes(opts, fs)
+		b = protowire.AppendTag(b, 3, protowire.BytesType) // EnumDescriptorProto.options
+		b = protowire.AppendBytes(b, opts)
+		want = v == 1 // OPEN = 1, CLOSED = 2
+		nd.Reach("explicit enum_type")
+	} else {
+		nd.Reach("inherited")
+	}
+	var sb strs.Builder
+	ed := &Enum{}
+	ed.unmarshalSeed(b, &sb, pf, pf, 0)
+	nd.Assert(ed.IsClosed() == !want, "enum openness is the enum's own explicit setting, else the parent's")
+	nd.Assert(ed.FullName() == "p.E", "full name")
 }
